@@ -105,12 +105,12 @@ var c12perms = []c12perm{
 }
 
 // positions joined with "+" carry the string at both places (a key and a value of one mapping)
-var c12positions = []string{"plugin-source-noconfig", "plugin-smap-key", "plugin-smap-value", "extra-smap-key+extra-smap-value", "extra-nested-key+extra-nested-value", "extra-key+extra-value", "plugin-config-key+plugin-config-value", "extra-nested-value", "command", "label", "plugin-source", "plugin-config-key", "plugin-config-value", "plugin-config-nested", "env-value", "extra-key", "extra-value", "extra-nested-key", "extra-list",
+var c12positions = []string{"plugin-config-scalar", "plugin-source-noconfig", "plugin-smap-key", "plugin-smap-value", "extra-smap-key+extra-smap-value", "extra-nested-key+extra-nested-value", "extra-key+extra-value", "plugin-config-key+plugin-config-value", "extra-nested-value", "command", "label", "plugin-source", "plugin-config-key", "plugin-config-value", "plugin-config-nested", "env-value", "extra-key", "extra-value", "extra-nested-key", "extra-list",
 	"env-name", "key", "matrix-setup-value", "matrix-adjust-with", "matrix-extra", "signature-value", "signature-field", "cache-path"}
 
 var c12inScope = map[string]bool{"command": true, "label": true, "plugin-source": true, "plugin-config-key": true, "plugin-config-value": true, "plugin-config-nested": true,
 	"env-value": true, "extra-key": true, "extra-value": true, "extra-nested-key": true, "extra-list": true, "extra-nested-value": true,
-	"plugin-source-noconfig": true, "plugin-smap-key": true, "plugin-smap-value": true, "extra-smap-key+extra-smap-value": true,
+	"plugin-config-scalar": true, "plugin-source-noconfig": true, "plugin-smap-key": true, "plugin-smap-value": true, "extra-smap-key+extra-smap-value": true,
 	"extra-nested-key+extra-nested-value": true, "extra-key+extra-value": true, "plugin-config-key+plugin-config-value": true}
 
 type c12case struct {
@@ -148,6 +148,7 @@ func c12step(c c12case) *pipeline.CommandStep {
 				"smap": map[string]string{at("plugin-smap-key", "sk"): at("plugin-smap-value", "sv"), "sk2": "sv2"},
 			}},
 			{Source: "./" + at("plugin-source-noconfig", "second"), Config: nil},
+			{Source: "./third", Config: at("plugin-config-scalar", "scalar-config")},
 		},
 		Env: map[string]string{at("env-name", "NAME"): at("env-value", "val"), "OTHER": "o"},
 		Matrix: &pipeline.Matrix{
@@ -389,6 +390,19 @@ func c12run(w *report.W) {
 		if pan != "" || err != nil || snap.Deep(&st) != before {
 			w.Violate(report.Violation{Kind: "empty-permutation", Case: "empty permutation, nil matrix", Detail: fmt.Sprintf("err=%v panic=%s changed=%v", err, pan, snap.Deep(&st) != before), Size: 1})
 		}
+		// a matrix without any setup dimension (only unknown keys, or an empty setup): still "no matrix to apply"
+		for mi, mx := range []*pipeline.Matrix{{RemainingFields: map[string]any{"set_up": []any{"a", "b"}}}, {Setup: pipeline.MatrixSetup{}}} {
+			for _, perm := range []pipeline.MatrixPermutation{nil, {}} {
+				st3 := c12step(c12case{"{{matrix}} {{matrix.os}}", "command", c12perms[0], ""})
+				st3.Matrix = mx
+				before3 := snap.Deep(&st3)
+				pan = report.Catch(func() { err = st3.InterpolateMatrixPermutation(perm) })
+				w.P.Evaluations++
+				if pan != "" || err != nil || snap.Deep(&st3) != before3 {
+					w.Violate(report.Violation{Kind: "empty-permutation", Case: fmt.Sprintf("empty permutation (nil=%v), setup-less matrix #%d", perm == nil, mi), Detail: fmt.Sprintf("err=%v panic=%s changed=%v", err, pan, snap.Deep(&st3) != before3), Size: 1})
+				}
+			}
+		}
 		st2 := c12step(c12case{"{{matrix}}", "command", c12perms[0], ""})
 		st2.Matrix = nil
 		pan = report.Catch(func() { err = st2.InterpolateMatrixPermutation(pipeline.MatrixPermutation{}) })
@@ -437,7 +451,7 @@ func init() {
 	register(&report.Check{
 		ID: "C12",
 		Rule: "every concatenation of <=3 (quick) / <=4 (thorough) pieces over a 25-piece alphabet (tokens with and without inner whitespace, dotted / dashed / dot-leading dimension names, unknown dimensions, " +
-			"near misses, brace fragments, plain text) x 27 positions of a command step (the same string at a key and a value of one mapping for three mappings; 12 single positions in scope: command, label, plugin source, config keys/values/nested, env values, unknown-field keys/values/nested/list; " +
+			"near misses, brace fragments, plain text) x 28 positions of a command step (the same string at a key and a value of one mapping for three mappings; 12 single positions in scope: command, label, plugin source, config keys/values/nested, env values, unknown-field keys/values/nested/list; " +
 			"8 out of scope: env names, key, matrix setup/with/extra, signature value/field, cache) x 7 permutations (seven dimensions, anonymous, named with . - _, token-shaped values that name each other, dot-leading names, dash/dot names, values that contain their own token) x 2 representations of the step (built by hand with plain Go maps; its JSON decoded by CommandStep.UnmarshalJSON, " +
 			"whose nested unknown mappings are ordered maps - strings of <=2 (quick) / <=3 (thorough) pieces; four-piece strings: single positions and the five basic permutations only); " +
 			"InterpolateMatrixPermutation on the real code vs. a hand-written single-pass scanner mapped over the step's JSON before the call; unknown dimension in scope => error; empty permutation => deep " +
